@@ -18,12 +18,14 @@ package zipslicer
 //@   allocbound 0 size + 65536
 //@
 //@ func ReadWithDirectory
-//@   property C11
+//@   property C11 C17
 //@   nopanic
 //@   ensures @directory_present_on_success ret1 == nil ==> ret0 != nil
 //@   ensures @directory_lies_within_the_file ret1 == nil && size >= 0 ==> ret0.Size == size && ret0.DirLoc <= size
 //@   allocbound 0 262144
 //@   loop 1 sig "for len(extra) >= 4" invariant len(extra) <= 65535
+//@   loop 1 exit @extra_field_walk_ends_only_at_the_zip64_field_at_an_overrunning_field_or_with_less_than_a_header_left \
+//@        len(extra) < 4 || extra[0] + 256 * extra[1] == 1 || 4 + extra[2] + 256 * extra[3] > len(extra)
 //@
 //@ func ZipToTar
 //@   property C09
@@ -210,3 +212,13 @@ package zipslicer
 //@   requires fileOK(f)
 //@   ensures @file_invariant_kept fileOK(f)
 //@   modifies f.lfh, f.lfhName, f.lfhExtra, f.ddb, f.CRC32
+//@
+//@ func (*streamReaderAt).ReadAt
+//@   property C17 C09
+//@   requires r != nil && 0 <= r.pos && r.pos <= 4611686018427387904 && p <= 4611686018427387904 && len(d) <= 4294967296
+//@   before call io.CopyN(_, src, n): assert @gap_in_front_of_the_requested_offset_is_skipped_exactly src == r.r && n == p - r.pos && n > 0
+//@   before call io.ReadFull(src, b): assert @reads_at_the_requested_offset_into_the_given_buffer src == r.r && sameslice(b, d) && r.pos == p
+//@   ensures @a_read_is_complete_or_fails ret1 == nil ==> ret0 == len(d)
+//@   ensures @position_follows_the_bytes_consumed ret1 == nil ==> r.pos == p + len(d)
+//@   ensures @reading_backwards_is_refused p < old(r.pos) ==> ret1 != nil && ret0 == 0 && r.pos == old(r.pos)
+//@   modifies r.pos, mem(d), sink r.r
